@@ -563,7 +563,7 @@ def with_calls(cls):
             eff(old, s, a, result)
         log_widget_calls(old, calls(old, a))
 
-    cls.ensures, cls.ensures_callee, cls.effects = ensures, inner, effects
+    cls.ensures, cls.ensures_callee, cls.effects = ensures, cls.__dict__.get("ensures_callee") or inner, effects
     return cls
 
 
@@ -902,3 +902,280 @@ class reset:
         yield "every-cell-is-a-blank-in-the-default-rendition", forall(0, old.height, lambda r: forall(0, old.width, lambda x: G.cell_eq(G.cell(s.term, r, x), (None, s.charset.current, b" "))))
         yield "a-tab-stop-every-eight-columns", both(same_value("tabstops", s.tabstops, initial_tabstops(old)), forall(0, old.width, lambda k: tabstop_at(s, k) == (k % 8 == 0)))
         yield "size-scrollback-and-utf8-assembly-untouched", pframe(old, s, *reset.modifies)
+
+
+# =================================================================================================
+# the escape-sequence interpreters
+
+ANY = type("AnyValue", (), {"__repr__": lambda self: "<any>"})()
+_arg_same_base = arg_same
+
+
+def arg_same(x, y):  # noqa: F811 - adds the wildcard
+    if x is ANY or y is ANY:
+        return True
+    return _arg_same_base(x, y)
+
+
+@contract(VT + "TermCanvas.parse_osc", property="C15")
+@with_calls
+class parse_osc:
+    self_shape = PTERM
+    params = dict(buf=BYTES)
+    invariant = staticmethod(PI)
+    replayable = False
+
+    def calls(old, a):
+        # OSC 0 / OSC 2 / OSC <empty> ; title: the window title is handed to the widget (leading zeros were stripped by
+        # the caller); everything else is ignored
+        if TO.text_startswith(a.buf, (b";", b"0;", b"2;")):
+            return [("set_title", {"title": ANY})]
+        return []
+
+    def ensures(old, s, a, result):
+        yield "keeps-the-parser-invariant", PI(s)
+        yield "canvas-untouched", pframe(old, s)
+
+
+NONCSI_MODS = ("term", "scrollback_buffer", *CURSOR_FIELDS, "is_rotten_cursor", "modes", "charset", "tabstops", "saved_cursor", "saved_attrs", "attrspec", "scrollregion_start",
+               "scrollregion_end", "escbuf", "within_escape", "parsestate")
+
+
+def _noncsi_cases(old, a):
+    """(condition, what happens) for the two- and three-character escape sequences, in the order the code tests them."""
+    ch, mod = a.char, a.mod
+    is_ = lambda c: beq(ch, c)  # noqa: E731
+    decaln = both(beq(mod, b"#"), is_(b"8"))
+    selcs = both(neg(decaln), beq(mod, b"%"))
+    desig = both(neg(decaln), neg(selcs), either(beq(mod, b"("), beq(mod, b")")))
+    plain = both(neg(decaln), neg(selcs), neg(desig))
+    return decaln, selcs, desig, plain, is_
+
+
+def _noncsi_calls(old, a):
+    decaln, selcs, desig, plain, is_ = _noncsi_cases(old, a)
+    if both(plain, is_(b"Z")):
+        return [("respond", {"string": "\x1b[?6c"})]
+    return []
+
+
+def _state_is(old, s, m, mods):
+    return both(*[same_value(k, s.fields[k], getattr(m, k)) for k in mods], pframe(old, s, *mods))
+
+
+def _noncsi_light(old, s, a, result):
+    decaln, selcs, desig, plain, is_ = _noncsi_cases(old, a)
+    yield "keeps-the-parser-invariant", PI(s)
+    yield "only-RIS-touches-the-escape-machine", implies(neg(both(plain, is_(b"c"))), parser_untouched(old, s))
+    yield "RIS-resets-the-escape-machine", implies(both(plain, is_(b"c")), both(neg(s.within_escape), s.parsestate == 0, tlen(s.escbuf) == 0))
+    yield "size-and-utf8-assembly-untouched", both(s.width == old.width, s.height == old.height, psame("utf8_eat_bytes", s.utf8_eat_bytes, old.utf8_eat_bytes), psame("utf8_buffer", s.utf8_buffer, old.utf8_buffer))
+
+
+@contract(VT + "TermCanvas.parse_noncsi", property="C15")
+@with_calls
+class parse_noncsi:
+    self_shape = PTERM
+    params = dict(char=BYTES, mod=BYTES)
+    modifies = NONCSI_MODS
+    invariant = staticmethod(PI)
+    replayable = False
+    independent_posts = True
+    calls = _noncsi_calls
+
+    def ensures(old, s, a, result):
+        yield from _noncsi_light(old, s, a, result)
+        decaln, selcs, desig, plain, is_ = _noncsi_cases(old, a)
+        LF = G.LF_FIELDS
+        yield "ESC-#-8-DECALN-fills-the-screen-with-E", implies(decaln, both(forall(0, old.height, lambda r: G.blank_row(s.term, r, old, old.width, b"E")), pframe(old, s, "term")))
+        yield "ESC-%-@-selects-the-default-charset-ESC-%-G-utf8", implies(selcs, both(
+            implies(is_(b"@"), s.modes.main_charset == 1), implies(either(is_(b"G"), is_(b"8")), s.modes.main_charset == 2),
+            implies(neg(either(is_(b"@"), TO.in_const(a.char, b"G8"))), s.modes.main_charset == old.modes.main_charset),
+            *[s.modes.fields[f] == old.modes.fields[f] for f in MODE_FLAGS], pframe(old, s, "modes")))
+        yield "ESC-(-and-)-designate-a-charset-and-nothing-else", implies(desig, pframe(old, s, "charset"))
+        yield "ESC-M-reverse-index", implies(both(plain, is_(b"M")), _state_is(old, s, G.M_lf(old, True), LF))
+        yield "ESC-D-index", implies(both(plain, is_(b"D")), _state_is(old, s, G.M_lf(old, False), LF))
+        yield "ESC-E-next-line", implies(both(plain, is_(b"E")), _state_is(old, s, G.M_lf(G.M_cr(old), False), LF))
+        col = old.term_cursor[0]
+        yield "ESC-H-sets-a-tab-stop-at-the-cursor-column", implies(both(plain, is_(b"H")), both(
+            tabstop_at(s, col), forall(0, old.width, lambda k: implies(k != col, tabstop_at(s, k) == tabstop_at(old, k))), pframe(old, s, "tabstops")))
+        yield "ESC-Z-only-replies", implies(both(plain, is_(b"Z")), pframe(old, s))
+        yield "ESC-7-saves-cursor-rendition-and-charset", implies(both(plain, is_(b"7")), both(
+            opt_eq(s.saved_cursor, old.term_cursor), neg(opt_isnone(s.saved_attrs)), pframe(old, s, "saved_cursor", "saved_attrs")))
+        m8 = G.M_set_cursor(old, *val(old.saved_cursor)) if not is_none_const(old.saved_cursor) and val(old.saved_cursor) is not None else old
+        yield "ESC-8-restores-the-saved-cursor", implies(both(plain, is_(b"8")), both(
+            implies(neg(opt_isnone(old.saved_cursor)), both(G.cursor_is(s, m8.term_cursor), opt_eq(s.cursor, m8.cursor))),
+            implies(opt_isnone(old.saved_cursor), pframe(old, s)), pframe(old, s, *CURSOR_FIELDS, "attrspec", "charset")))
+        known = either(False, *[is_(bytes([c])) for c in b"MDcEHZ78"])
+        yield "anything-else-is-ignored", implies(both(plain, neg(known)), pframe(old, s))
+
+    ensures_callee = staticmethod(_noncsi_light)
+
+
+# ---- CSI: parameter parsing and the dispatch through the REAL table
+
+CSI_KEYS = tuple(_vt.CSI_COMMANDS)
+CSI_MODS = ("term", "scrollback_buffer", *CURSOR_FIELDS, "is_rotten_cursor", "modes", "charset", "tabstops", "saved_cursor", "saved_attrs", "attrspec", "scrollregion_start", "scrollregion_end")
+PARAMS = ListOf(Opt(Int))
+
+
+def onone(e):
+    return opt_isnone(e)
+
+
+def oval(e):
+    v = val(e)
+    return 0 if v is None else v
+
+
+def pget(lst, j):
+    return Q.seq_get(lst, j)
+
+
+def param_ok(e):
+    """A parsed CSI parameter: absent (None: empty or unparsable text) or a non-negative integer."""
+    return either(onone(e), oval(e) >= 0)
+
+
+def _csi_inv0(v):
+    return both(_nlen(v.escbuf) == v.i_, forall(0, v.i_, lambda j: param_ok(pget(v.escbuf, j))))
+
+
+def defaulted(e, d):
+    """The value the callback sees for parsed parameter e under the command's default d."""
+    return ite(either(onone(e), oval(e) == 0), d, oval(e))
+
+
+def _csi_inv2(v):
+    ent, now, d = v.at_entry.escbuf, v.escbuf, v.default_value
+    n = _nlen(ent)
+    return both(_nlen(now) == n, forall(0, n, lambda j: both(
+        implies(j < v.i_, both(neg(onone(pget(now, j))), oval(pget(now, j)) == defaulted(pget(ent, j), d))),
+        implies(j >= v.i_, opt_eq(pget(now, j), pget(ent, j))))))
+
+
+class _UnwrapParams:
+    """Call-site adapter for a callee that takes the parameter list as a list of plain ints (csi_set_attr): the list the
+    parser built holds Optional[int] elements; that none of them is None after defaulting is the caller's obligation
+    here, then the callee's contract is applied to the same list read as ints."""
+
+    def __init__(self, key, argname):
+        self.key, self.argname = key, argname
+
+    def apply(self, ip, st, f, args, kwargs, site=None, check_pre=True):
+        c = REGISTRY[self.key]
+        args = list(args)
+        lst = args[1]
+        n = Q.seq_len(lst)
+        st.oblige(f"{ip.task.name}/call-pre@{f.ref.qualname}:{(site or '').split(':')[-1]}/no-parameter-is-None", forall(0, n, lambda j: neg(onone(pget(lst, j)))), "call-pre")
+        base = lst.seq
+        args[1] = LRef(SSeq(n, lambda j: oval(Q.seq_get(base, j)), Int, None, "params"))
+        return c.apply(ip, st, f, args, kwargs, site, check_pre)
+
+
+def _csi_light(old, s, a, result):
+    yield "keeps-the-parser-invariant", PI(s)
+    yield "escape-machine-and-utf8-assembly-untouched", parser_untouched(old, s)
+    yield "size-and-scrollback-view-untouched", both(s.width == old.width, s.height == old.height, s.scrolling_up == old.scrolling_up, eq(s.widget, old.widget), s.has_focus == old.has_focus)
+
+
+def callee_model(c, old, **args):
+    """The reference-model state a `modelled` contract of C15_vterm assigns to a call with these arguments."""
+    return type(c).__dict__["model"](old, View(args))
+
+
+def _move(old, x, y, rx=False, ry=False, rel=False):
+    return callee_model(G.move_cursor, old, x=x, y=y, relative_x=rx, relative_y=ry, relative=rel), G.move_cursor.modifies
+
+
+def csi_effect(old, key, p0, p1, qmark):
+    """ECMA-48 / VT100 meaning of the control function with final byte `key`, as (model state, fields it may change,
+    calls on the widget); None where this file states nothing (SGR: contracts/C15_sgr.py; h / l / g / s / u: the
+    callee contracts' own clauses).  Cursor movements are relative to the parameters AFTER defaulting (0 -> 1)."""
+    x, y = old.term_cursor
+    none = []
+    if key == b"@":  # ICH
+        return G.M_insert_chars(old, None, p0, None), ("term",), none
+    if key == b"A":  # CUU
+        return *_move(old, 0, -p0, rel=True), none
+    if key == b"B":  # CUD
+        return *_move(old, 0, p0, rel=True), none
+    if key == b"C":  # CUF
+        return *_move(old, p0, 0, rel=True), none
+    if key == b"D":  # CUB
+        return *_move(old, -p0, 0, rel=True), none
+    if key == b"E":  # CNL
+        return *_move(old, 0, p0, ry=True), none
+    if key == b"F":  # CPL
+        return *_move(old, 0, -p0, ry=True), none
+    if key == b"G":  # CHA
+        return *_move(old, p0 - 1, 0, ry=True), none
+    if key == b"H":  # CUP: row ; column, one-based
+        return *_move(old, p1 - 1, p0 - 1), none
+    if key == b"d":  # VPA
+        return *_move(old, 0, p0 - 1, rx=True), none
+    if key == b"J":  # ED
+        return M_erase_display(old, p0), ("term", *CURSOR_FIELDS), none
+    if key == b"K":  # EL
+        return M_erase_line(old, p0), ("term",), none
+    if key == b"L":  # IL
+        return G.M_insert_lines(old, True, p0), ("term",), none
+    if key == b"M":  # DL
+        return G.M_remove_lines(old, True, p0), ("term",), none
+    if key == b"P":  # DCH
+        return G.M_remove_chars(old, None, p0), ("term",), none
+    if key == b"X":  # ECH: p0 cells from the cursor
+        return G.M_erase(old, (x, y), (x + p0 - 1, y)), ("term",), none
+    if key == b"r":  # DECSTBM
+        return callee_model(G.csi_set_scroll, old, top=p0, bottom=p1), G.csi_set_scroll.modifies, none
+    if key == b"c":  # DA
+        return old, (), ([] if qmark else [("respond", {"string": "\x1b[?6c"})])
+    if key == b"n":  # DSR / CPR
+        return old, (), status_reply(old, p0)
+    if key == b"q":  # DECLL
+        return old, (), type(csi_set_keyboard_leds).__dict__["calls"](old, View(dict(mode=p0)))
+    if key in (b"g", b"h", b"l", b"s", b"u"):
+        return None, None, none
+    return None, None, None
+
+
+@contract(VT + "TermCanvas.parse_csi", property="C15")
+class parse_csi:
+    self_shape = PTERM
+    params = dict(char=BYTES)
+    modifies = CSI_MODS
+    invariant = staticmethod(PI)
+    replayable = False
+    independent_posts = True
+    static_checks = [real_lambdas_xcheck, parser_state_writers, textops_xcheck]
+    contract_overrides = {VT + "TermCanvas.csi_status_report": STATUS_CALLEE, VT + "TermCanvas.csi_set_attr": _UnwrapParams(VT + "TermCanvas.csi_set_attr", "attrs")}
+    loops = {0: Loop(invariant=_csi_inv0, shapes={"escbuf": PARAMS}), 2: Loop(invariant=_csi_inv2, shapes={"escbuf": PARAMS})}
+
+    def requires(s, a):
+        # called by parse_escape for a final byte that is a key of CSI_COMMANDS, in CSI state
+        return both(s.parsestate == 1, either(False, *[beq(a.char, k) for k in CSI_KEYS]))
+
+    def ensures(old, s, a, result):
+        yield from _csi_light(old, s, a, result)
+        # what the command did, relative to the parameters the callback received (ghost: the function's locals at exit)
+        loc = cur().ghost["exit_locals"]
+        lst, qmark = loc["escbuf"], loc["qmark"]
+        n = _nlen(lst)
+        yield "the-private-marker-is-a-leading-question-mark", qmark == TO.text_startswith(as_text(old.escbuf), b"?")
+        yield "every-parameter-is-a-non-negative-int", forall(0, n, lambda j: both(neg(onone(pget(lst, j))), oval(pget(lst, j)) >= 0))
+        key = next((k for k in CSI_KEYS if beq(a.char, k)), None)  # (forks over the keys; exactly one matches by `requires`)
+        entry = _vt.CSI_COMMANDS[key]
+        if isinstance(entry, _vt.CSIAlias):
+            key = entry.alias
+            entry = _vt.CSI_COMMANDS[key]
+        yield "at-least-the-parameters-the-command-needs", n >= entry.num_args
+        if entry.default:
+            yield "a-zero-or-missing-parameter-became-the-default", forall(0, n, lambda j: oval(pget(lst, j)) >= 1)
+        p0 = oval(pget(lst, 0)) if entry.num_args >= 1 else None
+        p1 = oval(pget(lst, 1)) if entry.num_args >= 2 else None
+        want, mods, calls = csi_effect(old, key, p0, p1, qmark)
+        if want is not None:
+            yield from model_clauses(f"CSI-{key.decode()}", old, s, want, mods)
+        if calls is not None:
+            yield f"CSI-{key.decode()}/widget-calls", widget_calls_are(old, calls)
+
+    ensures_callee = staticmethod(lambda old, s, a, result: _csi_light(old, s, a, result))
